@@ -305,6 +305,7 @@ static struct file *file_create_virtual_dir(struct archive_write *a, struct xar 
 		    const char *);
 static int	file_add_child_tail(struct file *, struct file *);
 static struct file *file_find_child(struct file *, const char *);
+static int	file_check_metadata(struct archive_write *, struct file *);
 static int	file_gen_utility_names(struct archive_write *,
 		    struct file *);
 static int	get_path_component(char *, int, const char *);
@@ -568,6 +569,14 @@ xar_write_header(struct archive_write *a, struct archive_entry *entry)
 			return (ARCHIVE_FATAL);
 	}
 
+	/* The TOC has a type for every file; "file" is not a default. */
+	if (archive_entry_filetype(entry) == 0 &&
+	    archive_entry_hardlink(entry) == NULL) {
+		archive_set_error(&a->archive, ARCHIVE_ERRNO_MISC,
+		    "Filetype required");
+		return (ARCHIVE_FAILED);
+	}
+
 	file = file_new(a, entry);
 	if (file == NULL) {
 		archive_set_error(&a->archive, ENOMEM,
@@ -584,9 +593,27 @@ xar_write_header(struct archive_write *a, struct archive_entry *entry)
 	 */
 	if (archive_strlen(&(file->parentdir)) == 0 &&
 	    archive_strlen(&(file->basename)) == 0) {
+		const char *pathname = archive_entry_pathname(entry);
+
 		file_free(file);
+		/* No name at all is not a name of the top directory. */
+		if (pathname == NULL || pathname[0] == '\0') {
+			archive_set_error(&a->archive, ARCHIVE_ERRNO_MISC,
+			    "Can't record entry in xar file without pathname");
+			return (ARCHIVE_FAILED);
+		}
 		return (r2);
 	}
+
+	/* The TOC is written by xar_close(): what it cannot hold has
+	 * to be found, and said, now. */
+	r = file_check_metadata(a, file);
+	if (r < ARCHIVE_WARN) {
+		file_free(file);
+		return (r);
+	}
+	if (r < r2)
+		r2 = r;
 
 	/* Add entry into tree */
 	file_entry = file->entry;
@@ -2108,6 +2135,69 @@ cleanup_backslash(char *utf8, size_t len)
 /*
  * Generate a parent directory name and a base name from a pathname.
  */
+/*
+ * Drop from the entry, with a warning, what make_file_entry() would
+ * not be able to write: times that have no four-digit year and names
+ * that cannot be converted to UTF-8.
+ */
+static int
+file_check_metadata(struct archive_write *a, struct file *file)
+{
+	struct xar *xar = (struct xar *)a->format_data;
+	struct archive_entry *e = file->entry;
+	const char *p;
+	size_t len;
+	int r = ARCHIVE_OK;
+
+#define XAR_TIME_OK(t)	((int64_t)(t) >= -ARCHIVE_LITERAL_LL(62167219200) && \
+			 (int64_t)(t) <= ARCHIVE_LITERAL_LL(253402300799))
+	if (archive_entry_mtime_is_set(e) &&
+	    !XAR_TIME_OK(archive_entry_mtime(e))) {
+		archive_entry_unset_mtime(e);
+		r = ARCHIVE_WARN;
+	}
+	if (archive_entry_atime_is_set(e) &&
+	    !XAR_TIME_OK(archive_entry_atime(e))) {
+		archive_entry_unset_atime(e);
+		r = ARCHIVE_WARN;
+	}
+	if (archive_entry_ctime_is_set(e) &&
+	    !XAR_TIME_OK(archive_entry_ctime(e))) {
+		archive_entry_unset_ctime(e);
+		r = ARCHIVE_WARN;
+	}
+#undef XAR_TIME_OK
+	if (r != ARCHIVE_OK)
+		archive_set_error(&a->archive, ERANGE,
+		    "File time out of range");
+
+	if (archive_entry_uname_l(e, &p, &len, xar->sconv) != 0) {
+		if (errno == ENOMEM) {
+			archive_set_error(&a->archive, ENOMEM,
+			    "Can't allocate memory for Uname");
+			return (ARCHIVE_FATAL);
+		}
+		archive_set_error(&a->archive, ARCHIVE_ERRNO_FILE_FORMAT,
+		    "Can't translate uname '%s' to UTF-8",
+		    archive_entry_uname(e));
+		archive_entry_set_uname(e, NULL);
+		r = ARCHIVE_WARN;
+	}
+	if (archive_entry_gname_l(e, &p, &len, xar->sconv) != 0) {
+		if (errno == ENOMEM) {
+			archive_set_error(&a->archive, ENOMEM,
+			    "Can't allocate memory for Gname");
+			return (ARCHIVE_FATAL);
+		}
+		archive_set_error(&a->archive, ARCHIVE_ERRNO_FILE_FORMAT,
+		    "Can't translate gname '%s' to UTF-8",
+		    archive_entry_gname(e));
+		archive_entry_set_gname(e, NULL);
+		r = ARCHIVE_WARN;
+	}
+	return (r);
+}
+
 static int
 file_gen_utility_names(struct archive_write *a, struct file *file)
 {
